@@ -270,7 +270,11 @@ DecIVS(bs) ==
 \* (the offSize of that INDEX depends on the length of the Top DICT data), writes String INDEX, Global
 \* Subr INDEX, CharStrings, charset, Private DICTs, Font DICT INDEX behind the reservation and fills the
 \* reservation last, with the offsets it learned on the way.  The table as a value:
-\*   [names, top, strs, gs, cs, sids, priv, hasLs, ls, fds, fdsel]
+\*   [hdr, lay, names, top, strs, gs, cs, sids, priv, hasLs, ls, fds, fdsel]
+\*   lay                     : which of the layouts of EncCff the bytes have (not part of what is read)
+\*   hdr                     : [minor, offSize, pad] - the header is major = 1, minor, hdrSize, offSize followed by
+\*                             hdrSize - 4 bytes a reader of version 1 does not know and skips (pad); the Name
+\*                             INDEX starts at hdrSize, every offset of the table counts from the start of the header
 \*   names, strs, gs, cs, ls : byte strings (objects of the Name / String / Global Subr / CharStrings /
 \*                             Local Subr INDEX)
 \*   top, priv               : DICT entries WITHOUT the entries that locate other structures
@@ -281,6 +285,16 @@ DecIVS(bs) ==
 \* Dev_CffLayout: where the structures lie is the writer's business; DecCff follows the offsets.  The
 \* encoder below is ONE layout (the order of TN 5176's example); every offset is written in the five-byte
 \* form so that no size depends on an offset.
+\* -- the header.  hdrSize is a LENGTH that travels with the bytes it counts: a writer that does not emit the bytes
+\* it skipped must not announce them (Normalise drops them: NormHdr); one that keeps them is as good (Dev_HdrPad).
+HdrOk(h) == IsU8(h.minor) /\ h.offSize \in 1 .. 4 /\ IsBytes(h.pad) /\ Len(h.pad) <= 251
+HdrLen(h) == 4 + Len(h.pad)
+EncHdr(h) == <<1, h.minor, HdrLen(h), h.offSize>> \o h.pad
+NormHdr(h) == [h EXCEPT !.pad = <<>>]
+HdrWrittenOk(read, written) == /\ written.minor = read.minor /\ written.offSize = read.offSize
+                               /\ (written.pad = <<>> \/ written.pad = read.pad)
+Hdr4 == [minor |-> 0, offSize |-> 1, pad |-> <<>>]
+
 OffsetOps == {OpCharset, OpEncoding, OpCharStrings, OpPrivate, OpSubrs, OpFDArray, OpFDSelect}
 NonOffsetEntries(es) == SelectSeq(es, LAMBDA e : e.op \notin OffsetOps)
 DE(op, args) == [op |-> op, args |-> args]
@@ -301,26 +315,44 @@ TopEntries(v, charsetOff, csOff, a, b) ==      \* a, b: Private (size, offset)  
 TopDictLen(v) == Len(EncDict(TopEntries(v, 0, 0, 0, 0)))
 FdEntries(f, size, off) == f.fd \o <<DE(OpPrivate, <<O(size), O(off)>>)>>
 
+\* v.lay = 0: the order of TN 5176's example, nothing between the structures.  v.lay = 1 (Dev_CffLayout on the side of
+\* the SOURCE: a reader must follow the offsets): the structures the DICTs locate in the opposite order - Private
+\* DICT(s) before the charset before the CharStrings, the Font DICT INDEX first - with three unreferenced bytes before,
+\* between and behind them.
+LayGap == <<201, 202, 203>>
 EncCff(v) ==
   LET tl     == TopDictLen(v)
       topLen == 3 + 2 * MinOffSize(tl + 1) + tl
       nameI  == IndexBytes(v.names)  strI == IndexBytes(v.strs)  gsI == IndexBytes(v.gs)  csI == IndexBytes(v.cs)
       chs    == CharsetBytes(v.sids)
-      csOff  == 4 + Len(nameI) + topLen + Len(strI) + Len(gsI)
-      chOff  == csOff + Len(csI)
-      after  == chOff + Len(chs) IN
+      hdr    == EncHdr(v.hdr)
+      alt    == v.lay = 1
+      g      == LayGap
+      base   == Len(hdr) + Len(nameI) + topLen + Len(strI) + Len(gsI) IN
   IF v.fds = <<>>
-  THEN LET pb  == PrivBlock(v.priv, v.hasLs, v.ls)
-           top == EncDict(TopEntries(v, chOff, csOff, Len(PrivDictBytes(v.priv, v.hasLs)), after)) IN
-       <<1, 0, 4, 1>> \o nameI \o IndexBytes(<<top>>) \o strI \o gsI \o csI \o chs \o pb
+  THEN LET pb    == PrivBlock(v.priv, v.hasLs, v.ls)
+           pOff  == IF alt THEN base + 3 ELSE base + Len(csI) + Len(chs)
+           chOff == IF alt THEN base + 3 + Len(pb) + 3 ELSE base + Len(csI)
+           csOff == IF alt THEN base + 3 + Len(pb) + 3 + Len(chs) + 3 ELSE base
+           top   == EncDict(TopEntries(v, chOff, csOff, Len(PrivDictBytes(v.priv, v.hasLs)), pOff)) IN
+       hdr \o nameI \o IndexBytes(<<top>>) \o strI \o gsI
+       \o (IF alt THEN g \o pb \o g \o chs \o g \o csI \o g ELSE csI \o chs \o pb)
   ELSE LET fdsel  == EncFdSelect([fmt |-> 0, fds |-> v.fdsel])
            blocks == [i \in 1 .. Len(v.fds) |-> PrivBlock(v.fds[i].priv, v.fds[i].hasLs, v.fds[i].ls)]
-           pOff   == Pref(MapS(blocks, Len), 1, after + Len(fdsel))
+           bl     == SumSeq(MapS(blocks, Len))
+           fddLen == IndexLen([i \in 1 .. Len(v.fds) |-> EncDict(FdEntries(v.fds[i], 0, 0))])
+           fdaOff == IF alt THEN base + 3 ELSE base + Len(csI) + Len(chs) + Len(fdsel) + bl
+           bOff   == IF alt THEN base + 3 + fddLen + 3 ELSE base + Len(csI) + Len(chs) + Len(fdsel)
+           fsOff  == IF alt THEN bOff + bl + 3 ELSE base + Len(csI) + Len(chs)
+           chOff  == IF alt THEN fsOff + Len(fdsel) + 3 ELSE base + Len(csI)
+           csOff  == IF alt THEN chOff + Len(chs) + 3 ELSE base
+           pOff   == Pref(MapS(blocks, Len), 1, bOff)
            fdd    == [i \in 1 .. Len(v.fds) |->
                         EncDict(FdEntries(v.fds[i], Len(PrivDictBytes(v.fds[i].priv, v.fds[i].hasLs)), pOff[i]))]
-           fdaOff == after + Len(fdsel) + SumSeq(MapS(blocks, Len))
-           top    == EncDict(TopEntries(v, chOff, csOff, fdaOff, after)) IN
-       <<1, 0, 4, 1>> \o nameI \o IndexBytes(<<top>>) \o strI \o gsI \o csI \o chs \o fdsel \o Cat(blocks) \o IndexBytes(fdd)
+           top    == EncDict(TopEntries(v, chOff, csOff, fdaOff, fsOff)) IN
+       hdr \o nameI \o IndexBytes(<<top>>) \o strI \o gsI
+       \o (IF alt THEN g \o IndexBytes(fdd) \o g \o Cat(blocks) \o g \o fdsel \o g \o chs \o g \o csI \o g
+           ELSE csI \o chs \o fdsel \o Cat(blocks) \o IndexBytes(fdd))
 
 \* -- decoding by following the structure
 IndexAt(bs, at) == IF at < 0 \/ at + 2 > Len(bs) THEN [ok |-> FALSE, objs |-> <<>>, size |-> 0, offSize |-> 0]
@@ -339,7 +371,9 @@ PrivAt(bs, size, off) ==
 CffBad == [ok |-> FALSE, v |-> <<>>, topLen |-> -1, topOffSize |-> -1]
 DecCff(bs) ==
   IF Len(bs) < 4 THEN CffBad ELSE
-  LET i1 == IndexAt(bs, bs[3]) IN IF ~i1.ok THEN CffBad ELSE
+  IF bs[1] # 1 \/ bs[3] < 4 \/ bs[3] > Len(bs) \/ bs[4] \notin 1 .. 4 THEN CffBad ELSE      \* what a reader of version 1 accepts
+  LET hd == [minor |-> bs[2], offSize |-> bs[4], pad |-> SubSeq(bs, 5, bs[3])]
+      i1 == IndexAt(bs, bs[3]) IN IF ~i1.ok THEN CffBad ELSE
   LET a2 == bs[3] + i1.size  i2 == IndexAt(bs, a2) IN IF ~i2.ok \/ Len(i2.objs) # 1 THEN CffBad ELSE
   LET a3 == a2 + i2.size  i3 == IndexAt(bs, a3) IN IF ~i3.ok THEN CffBad ELSE
   LET a4 == a3 + i3.size  i4 == IndexAt(bs, a4) IN IF ~i4.ok THEN CffBad ELSE
@@ -357,7 +391,7 @@ DecCff(bs) ==
   THEN IF Len(pa) # 2 THEN CffBad ELSE
        LET p == PrivAt(bs, pa[1].v, pa[2].v) IN IF ~p.ok THEN CffBad ELSE
        [ok |-> TRUE, topLen |-> Len(i2.objs[1]), topOffSize |-> i2.offSize,
-        v |-> [names |-> i1.objs, top |-> NonOffsetEntries(top), strs |-> i3.objs, gs |-> i4.objs, cs |-> cs.objs,
+        v |-> [hdr |-> hd, names |-> i1.objs, top |-> NonOffsetEntries(top), strs |-> i3.objs, gs |-> i4.objs, cs |-> cs.objs,
                sids |-> sids, priv |-> p.priv, hasLs |-> p.hasLs, ls |-> p.ls, fds |-> <<>>, fdsel |-> <<>>]]
   ELSE IF fsa = <<>> THEN CffBad ELSE
        LET fda == IndexAt(bs, fa[1].v) IN IF ~fda.ok THEN CffBad ELSE
@@ -366,7 +400,7 @@ DecCff(bs) ==
        LET ps == [i \in 1 .. Len(fdd) |-> PrivAt(bs, DictArgs(fdd[i], OpPrivate)[1].v, DictArgs(fdd[i], OpPrivate)[2].v)] IN
        IF \E i \in 1 .. Len(ps) : ~ps[i].ok THEN CffBad ELSE
        [ok |-> TRUE, topLen |-> Len(i2.objs[1]), topOffSize |-> i2.offSize,
-        v |-> [names |-> i1.objs, top |-> NonOffsetEntries(top), strs |-> i3.objs, gs |-> i4.objs, cs |-> cs.objs,
+        v |-> [hdr |-> hd, names |-> i1.objs, top |-> NonOffsetEntries(top), strs |-> i3.objs, gs |-> i4.objs, cs |-> cs.objs,
                sids |-> sids, priv |-> <<>>, hasLs |-> FALSE, ls |-> <<>>,
                fds |-> [i \in 1 .. Len(fdd) |-> [fd |-> NonOffsetEntries(fdd[i]), priv |-> ps[i].priv,
                                                  hasLs |-> ps[i].hasLs, ls |-> ps[i].ls]],
@@ -377,6 +411,7 @@ DecCff(bs) ==
 \* defaults may be dropped), everything else exactly
 DictSame(kind, a, b) == EntriesEq(NormDict(kind, a), NormDict(kind, b))
 CffEq(a, b) ==
+  /\ a.hdr.minor = b.hdr.minor /\ a.hdr.offSize = b.hdr.offSize           \* the skipped bytes: HdrWrittenOk
   /\ a.names = b.names /\ a.strs = b.strs /\ a.gs = b.gs /\ a.cs = b.cs /\ a.sids = b.sids
   /\ DictSame("top", a.top, b.top) /\ DictSame("priv", a.priv, b.priv)
   /\ a.hasLs = b.hasLs /\ a.ls = b.ls /\ a.fdsel = b.fdsel
@@ -395,7 +430,8 @@ SidFact(v, sid) == IF sid < 391 THEN <<-1, 0, 0, 0>>
                    ELSE IF sid - 390 <= Len(v.strs) THEN BytesFact(v.strs[sid - 390]) ELSE <<-2, 0, 0, 0>>
 CffFacts(v) ==
   LET nt == NormDict("top", v.top) IN
-  [names |-> FactsOf(v.names), strs |-> FactsOf(v.strs), gs |-> FactsOf(v.gs), cs |-> FactsOf(v.cs),
+  [hdr |-> <<1, v.hdr.minor, v.hdr.offSize>>,
+   names |-> FactsOf(v.names), strs |-> FactsOf(v.strs), gs |-> FactsOf(v.gs), cs |-> FactsOf(v.cs),
    sids |-> v.sids, topops |-> OpsOf(nt),
    sidstr |-> MapS(SelectSeq(nt, LAMBDA e : e.op \in SidOps /\ Len(e.args) = 1 /\ e.args[1].t = "i"),
                    LAMBDA e : SidFact(v, e.args[1].v)),
